@@ -113,11 +113,11 @@ def run(ctx):
         n = 14 if quick else 150
         items, meta = [], []
         for b in range(n):
-            base = maptrace.gen_scenario(rng, max_levels=3, max_leaves=6, min_leaves=2,
+            base = maptrace.gen_scenario(rng, max_levels=3, max_leaves=6, min_leaves=2, G=10, vmax=9,
                                          ncell=rng.randint(2, 7), cfg={'drop': None, 'flatten': False})
             if len(base['tree']['nodes'][0]) == 1:
                 base['tree'] = maptrace.random_tree(rng, 1, 5, 2)
-                base['means'] = {str(l): [rng.randint(0, 4) for _ in range(base['G'])]
+                base['means'] = {str(l): [rng.randint(0, 9) for _ in range(base['G'])]
                                  for l in base['tree']['nodes'][-1]}
                 base['markers'] = {'0/0': base['markers']['0/0']}
             safe_markers(rng, base)
@@ -182,6 +182,23 @@ def run(ctx):
                 neg['Qf'] = Xn.tolist()
                 items.append((neg, scheme, {}))
                 meta.append(('negative', enc))
+        # (iv') large sparse raw queries (several HDF5 chunks of X/data) with the negative value in
+        # the tail of the data array / in the middle / at the start
+        for enc in ('csr', 'csc'):
+            for where in ('tail', 'middle', 'start'):
+                nb = rng.choice([397, 523, 611, 455])
+                big = maptrace.gen_scenario(rng, tree=maptrace.random_tree(rng, 1, 4, 2), G=10, vmax=9,
+                                            ncell=nb, cfg={'drop': None, 'flatten': False, 'norm': 'raw',
+                                                           'enc': enc, 'chunk': 200, 'P': 2, 'B': 1})
+                big['cells'] = list(range(1, nb + 1))
+                Xb = np.array([[rng.randint(1, 20) for _ in big['qgenes']] for _ in range(nb)], dtype=float)
+                r_ = {'tail': nb - 1, 'middle': rng.randint(150, 250), 'start': 0}[where]
+                c_ = {'tail': len(big['qgenes']) - 1, 'middle': rng.randrange(len(big['qgenes'])), 'start': 0}[where]
+                Xb[r_, c_] = -3.0
+                big['Q'] = [[0] * len(big['qgenes'])] * nb
+                big['Qf'] = Xb.tolist()
+                items.append((big, 'structural', {}))
+                meta.append(('negative', f'{enc}-large-{where}'))
         rs = relations.run_many(ctx, items)
         pairs = []
         base = rawbase = None
